@@ -844,12 +844,14 @@ fn gen_respedits_case(rng: &mut Rng) -> Vec<String> {
     let names = ["Server", "Content-Type", "Strict-Transport-Security", "X-B", "Cache-Control", "Via", "X-Frame-Options", "Set-Cookie"];
     let mut hs: Vec<Hdr> = vec![];
     for _ in 0..rng.below(7) {
-        let k = case_variant(rng, rng.pick(&names), true);
+        let nm: &str = { let x: &&str = rng.pick(&names[..]); x };
+        let k = case_variant(rng, nm, true);
         hs.push((k, rng.pick(&["x", "text/html", "max-age=1", "1.1 b", "DENY"]).as_bytes().to_vec()));
     }
     let mut edits = vec![];
     for _ in 0..rng.below(5) {
-        let k = case_variant(rng, rng.pick(&names), true);
+        let nm: &str = { let x: &&str = rng.pick(&names[..]); x };
+        let k = case_variant(rng, nm, true);
         let v = if rng.chance(1, 4) { "".to_string() } else { rng.pick(&["edited", "max-age=31536000", "SAMEORIGIN"]).to_string() };
         let m = *rng.pick(&['a', 'i', 's']);
         edits.push(format!("{}:{}:{}", hex(&k), hex(v.as_bytes()), m));
